@@ -63,6 +63,10 @@ def run_shard(ctx):
     for i in ctx.cases(ncases(ctx.tier)):
         case = {"program": kern.gen_program(ctx.rng(i), PROFILE)}
         viol, nt = one_case(ctx, case["program"])
+        if i % 4 == 0:
+            bv, n = kern.bare_spec_violation(case["program"])
+            viol += bv
+            ctx.count("bare_runs_compared")
         for m, what, wit in viol:
             ctx.violation(m, what, wit, case)
         ctx.case_done(case, nt)
@@ -70,5 +74,6 @@ def run_shard(ctx):
 
 def replay(ctx, case):
     viol, _ = one_case(ctx, case["program"])
+    viol += kern.bare_spec_violation(case["program"])[0]
     for m, what, wit in viol:
         ctx.violation(m, what, wit, case)
